@@ -42,7 +42,8 @@ def correspondence(ctx):
 
 
 def search_broken(ctx):
-    return []
+    # the obligations of this property rest on the data certificate: turn its witnesses into requests
+    return D.data_witness_probe(PID, ("Inventory",))
 
 
 def replay(payload):
